@@ -1020,7 +1020,8 @@ Fixpoint restore_keysets (vr : variant) (seed m : Z) (kss : list Z) (x : wallet)
       doM mt <- get_mint m ;
       doM res <- restore_keyset vr 400 seed m ks 0 0 0 [] [] ;
       let '(unspent, pend, stored) := res in
-      let x1 := put_ks x (mkKs m ks (ks =? active_ks mt) 0 stored) in
+      (* the keyset is saved with the input fee the mint lists for it (fix 9832df1; before, with the zero value) *)
+      let x1 := put_ks x (mkKs m ks (ks =? active_ks mt) (nth (Z.to_nat ks) (mn_fees mt) 0) stored) in
       let x2 := w_set_proofs x1 (w_proofs x1 ++ unspent) in
       let x3 := w_set_pend x2 (w_pend x2 ++ map (fun p => (p, -1)) pend) in
       restore_keysets vr seed m r x3
